@@ -428,6 +428,26 @@ def run(chk: common.Check, tier: str):
                    "(invalid_ alternatives that carry their own action; a bare `invalid_x` alternative is emitted with the UNREACHABLE filler "
                    "as its action, which is not the value the grammar's default rule gives it -- by design it never returns)",
                    not bad5 and all(floor4), json.dumps([RBS_SEEDS[i] for i in bad5]))
+    # ---- the shipped grammars: which generated parsers the end-to-end theorems speak about (pegen's own grammar parser is one)
+    import glob, os
+    shipped = []
+    for pth in sorted(glob.glob(str(common.REPO / "**/*.gram"), recursive=True)):
+        try:
+            x = rb_term(open(pth).read())
+        except Exception:       # noqa: other dialects, tabs
+            x = None
+        if x:
+            shipped.append((os.path.relpath(pth, common.REPO), x))
+    bad6 = common.run_cases(chk, "rb_shipped", prelude + RB_PRELUDE, "(grammar * N)", [x for _, x in shipped], "fp_ok", shard=3, timeout=1200)
+    if bad6 is not None:
+        inside = [p for i, (p, _) in enumerate(shipped) if i not in bad6]
+        chk.bump("shipped grammar files inside the class of C01_cached_first_pass_implements_the_grammar_without_its_invalid_alternatives", len(inside))
+        chk.bump("shipped grammar files read", len(shipped))
+        chk.oblige("instance condition of the end-to-end theorems on pegen's OWN grammar: for src/pegen/metagrammar.gram (the grammar "
+                   "grammar_parser.py is generated from) reads_back_with_actions (strip_rules rs) (first_pass_module (generate rs)) = true and "
+                   "there is no leader -- so what pegen's grammar parser returns or raises is what the metagrammar prescribes, under the "
+                   f"theorem's hypotheses; inside as well: {', '.join(p for p in inside if 'metagrammar' not in p)}",
+                   any("metagrammar.gram" in p for p in inside), json.dumps(inside))
     rnd = [(t, rb_term(t)) for t in texts if t not in RB_SEEDS]
     rnd = [(t, x) for t, x in rnd if x]
     bad = common.run_cases(chk, "rb_rnd", prelude + RB_PRELUDE, "(grammar * N)", [x for _, x in rnd], "rb_ok", shard=40, timeout=900)
